@@ -42,10 +42,12 @@ CLAIMED = {
              'trees with all valuations plus random trees with every operator; exact match-list comparison with the model, documented '
              'semantics evaluated on the implementation\'s plan, and an independent recursive-descent reading of the grammar compared with '
              'the tree the parser built (precedence/associativity/nesting).',
-        note='Trusted: Lean kernel, Spec/Rules.lean, the generators, platform regexec/strptime (FFI on the model side). Attachment conditions '
-             'and attachment blocks are outside the theorem\'s domain (covered by the exact correspondence only). "No match => nothing '
-             'changes" and block selection by "-" are world-level statements not claimed here yet. Known finding F11 (pass crosses block) is '
-             'confirmed by two witnesses on every run.',
+        note='Also machine-checked: with "-" only stdin blocks are processed, without it only maildir blocks (C03_block_selection: mainP equals '
+             'mainP on the selected blocks, as programs). Trusted: Lean kernel, Spec/Rules.lean, the generators, platform regexec/strptime (FFI '
+             'on the model side). Attachment conditions and blocks are outside the domain of C03_eval_refines_spec (their meaning is '
+             'C11_attachment_cond / C11_attachment_block; the exact correspondence covers them). "No match => nothing changes" at world '
+             'level is decided by the process-level stage and the C12_error_no_effect / C05 theorems, a general theorem is in progress. '
+             'Known finding F11 (pass crosses block) is confirmed by two witnesses on every run.',
         technique='Lean 4 proof (simulation between match list and documented rule semantics) + differential execution through the real parser'),
     'C04': dict(
         text='Machine-checked: the exit status of Model.mainP under every fault plan is exitStatus of the final flags - 0/1 in maildir mode; with '
@@ -76,9 +78,13 @@ CLAIMED = {
              'code: 1200 generated rule trees x messages run through the real parser/evaluator/matches_inspect with the output compared byte '
              'for byte with the model and each marker judged against the offsets the implementation recorded; 49 configurations run with -d '
              'and then for real on the real binary (listed = acted on, same destinations).',
-        note='Trusted: as C03 plus the shim/process harness. Display width is the C-locale width (UTF-8 locales not exercised). Known '
-             'findings F15, F15b (marker when the match starts in leading blanks / at a newline) and F21 (walk revisits a message it moved '
-             'into a directory it has yet to read) are reported as KNOWN-FINDING lines.',
+        note='Also machine-checked (C06_explanations_true): the dry-run output is, group by group, the action line preceded by exactly one block '
+             'per non-empty sub-match of every INSPECT entry (header/body/date, C06_inspect_flag) since the previous action, each block '
+             'quoting a line of the value the pattern was applied to (C06_explanations_subject), in order. Trusted: as C03 plus the '
+             'shim/process harness. Display width is the C-locale width (UTF-8 locales not exercised). Known findings F15, F15b (marker when '
+             'the match starts in leading blanks / at a newline) and F21 (walk revisits a message it moved into a directory it has yet to '
+             'read) are reported as KNOWN-FINDING lines. Observation O22 (explanations of conditions of rules that did not fire are printed '
+             'too) is stronger than the property and recorded in DESIGN.md 9.2.',
         technique='Lean 4 proof (dry-run independence of the evaluator, inspect output = action list, marker columns) + differential '
                   'execution of matches_inspect + dry-run/real-run comparison on the binary'),
     'C07': dict(
